@@ -308,9 +308,13 @@ def unsafe_join_without_separator(module: Node, level: int) -> str:
     return "".join(module.split(".")[:level])
 
 
-def unsafe_join_with_slash(module: Node, level: int) -> str:
+def unsafe_join_with_dash(module: Node, level: int) -> str:
     parts = module.split(".")
-    return "/".join(parts[: level + 1])
+    return "-".join(parts[: level + 1])
+
+
+def safe_name_to_path_by_join(module: Node) -> str:
+    return "/".join(module.split(".")) + ".py"
 
 
 def unsafe_characters(module: Node) -> list[str]:
@@ -590,3 +594,7 @@ def unsafe_unbound_method(module: Node, other: Node) -> bool:
 
 def safe_sorted_case_insensitively(modules: list[Node]) -> list[str]:
     return sorted(modules, key=lambda m: m.lower()) + [m for m in modules if str.startswith(m, "_")]
+
+
+def safe_constant_prefix_tuple(module: Node) -> bool:
+    return module.startswith(("_", "test")) or SEPARATOR in module
